@@ -941,12 +941,13 @@ func runC07(c c07Case) *pbt.Verdict {
 				if ok {
 					accepted++
 					// (a) a vote may be accepted only if the mathematical sum of its powers is within the voter's power
-					if wraps {
-						v.Failf("C07/vote-sum-wrap", "height %d: vote of voter %d (power %s) accepted with signals %v: true sum %s does not fit int64 (wraps to %s)",
-							res.Height, t.voter, pw, t.sigs, sum, new(big.Int).Mod(sum, c07P64))
-						return false
-					}
+					// (the sum may legitimately exceed int64 for a voter that really has that much power)
 					if sum.Cmp(pw) > 0 {
+						if wraps {
+							v.Failf("C07/vote-sum-wrap", "height %d: vote of voter %d (power %s) accepted with signals %v: true sum %s exceeds the voter's power (int64 sum wraps to %s)",
+								res.Height, t.voter, pw, t.sigs, sum, new(big.Int).Mod(sum, c07P64))
+							return false
+						}
 						v.Failf("C07/vote-exceeds-power", "height %d: vote of voter %d accepted with sum %s above power %s: %v", res.Height, t.voter, sum, pw, t.sigs)
 						return false
 					}
